@@ -647,22 +647,22 @@ theorem sp_stateFn_rdoc {ws : Text} (hb : Blank ws) (X : Text) :
   case hi => rfl
   case hk => simp
 
-theorem sp_stateFn_gdocInner {l : Text} (h : IsDocLine l) (more : Text) :
-    Sp (stateFn .grammarDocInner) (l ++ 10 :: more) (some .grammar) (10 :: more)
+theorem sp_stateFn_gdocInner {sp l : Text} (hsp : DocSp sp l) (h : IsDocLine l) (more : Text) :
+    Sp (stateFn .grammarDocInner) (sp ++ (l ++ 10 :: more)) (some .grammar) (10 :: more)
       [(.commentText, l)] := by
   unfold stateFn
   sp_begin
-  sp_step (sp_docInner h more)
+  sp_step (sp_docInner hsp h more)
   exact Sp.pure _ _
   case hi => rfl
   case hk => simp
 
-theorem sp_stateFn_rdocInner {l : Text} (h : IsDocLine l) (more : Text) :
-    Sp (stateFn .ruleDocInner) (l ++ 10 :: more) (some .grammarRule) (10 :: more)
+theorem sp_stateFn_rdocInner {sp l : Text} (hsp : DocSp sp l) (h : IsDocLine l) (more : Text) :
+    Sp (stateFn .ruleDocInner) (sp ++ (l ++ 10 :: more)) (some .grammarRule) (10 :: more)
       [(.commentText, l)] := by
   unfold stateFn
   sp_begin
-  sp_step (sp_docInner h more)
+  sp_step (sp_docInner hsp h more)
   exact Sp.pure _ _
   case hi => rfl
   case hk => simp
@@ -788,7 +788,7 @@ theorem RunOK.mono {n m : Nat} {fn : Fn} {inp : Text} {K : List KV} (h : RunOK n
     whatever the continuation scans -/
 theorem run_docs (outer inner : Fn) (marker : TK) (m : Text)
     (hO : ∀ ws X, Blank ws → Sp (stateFn outer) (ws ++ (m ++ X)) (some inner) X [(marker, m)])
-    (hI : ∀ l more, IsDocLine l → Sp (stateFn inner) (l ++ 10 :: more) (some outer) (10 :: more)
+    (hI : ∀ l more, IsDocLine l → Sp (stateFn inner) (32 :: (l ++ 10 :: more)) (some outer) (10 :: more)
       [(.commentText, l)]) :
     ∀ (docs : List Text), (∀ l ∈ docs, IsDocLine l) → ∀ (n : Nat) (ws more : Text) (K : List KV),
     Blank ws → (∀ ws', Blank ws' → RunOK n outer (ws' ++ more) K) →
@@ -803,9 +803,9 @@ theorem run_docs (outer inner : Fn) (marker : TK) (m : Text)
     have ih' := ih (fun l' h' => hd l' (by simp [h'])) n [10] more K blank_lf hk
     have e : n + 2 * (l :: docs).length = (n + 2 * docs.length) + 1 + 1 := by simp; omega
     rw [e]
-    refine RunOK.step (t1 := l ++ 10 :: ((docs.map (docLine m)).flatten ++ more))
+    refine RunOK.step (t1 := 32 :: (l ++ 10 :: ((docs.map (docLine m)).flatten ++ more)))
       (k1 := [(marker, m)]) ?_ (RunOK.step (hI l _ hl) ih' rfl) ?_
-    · have := hO ws (l ++ 10 :: ((docs.map (docLine m)).flatten ++ more)) hb
+    · have := hO ws (32 :: (l ++ 10 :: ((docs.map (docLine m)).flatten ++ more))) hb
       simpa [docLine] using this
     · simp [docKV]
 
@@ -827,7 +827,7 @@ theorem run_rdocs : ∀ (docs : List Text), (∀ l ∈ docs, IsDocLine l) →
     RunOK (n + 2 * docs.length) .grammarRule (ws ++ ((docs.map (docLine sRDOC)).flatten ++ more))
       ((docs.map (docKV .ruleDoc sRDOC)).flatten ++ K) :=
   run_docs .grammarRule .ruleDocInner .ruleDoc sRDOC
-    (fun _ X hb => sp_stateFn_rdoc hb X) (fun _ more h => sp_stateFn_rdocInner h more)
+    (fun _ X hb => sp_stateFn_rdoc hb X) (fun l more h => sp_stateFn_rdocInner (docSp_blank l) h more)
 
 theorem run_gdocs : ∀ (docs : List Text), (∀ l ∈ docs, IsDocLine l) →
     ∀ (n : Nat) (ws more : Text) (K : List KV),
@@ -835,7 +835,7 @@ theorem run_gdocs : ∀ (docs : List Text), (∀ l ∈ docs, IsDocLine l) →
     RunOK (n + 2 * docs.length) .grammar (ws ++ ((docs.map (docLine sGDOC)).flatten ++ more))
       ((docs.map (docKV .grammarDoc sGDOC)).flatten ++ K) :=
   run_docs .grammar .grammarDocInner .grammarDoc sGDOC
-    (fun _ X hb => sp_stateFn_gdoc hb X) (fun _ more h => sp_stateFn_gdocInner h more)
+    (fun _ X hb => sp_stateFn_gdoc hb X) (fun l more h => sp_stateFn_gdocInner (docSp_blank l) h more)
 
 theorem run_rules : ∀ (rules : List SRule), (∀ r ∈ rules, r.WF) →
     ∀ (n : Nat) (ws more : Text) (K : List KV), Blank ws →
